@@ -49,12 +49,15 @@ def main():
             else:
                 verdict = "no-failing-input"
             what = ""
-            if viol:
+            whats = []
+            for l in viol:
                 try:
-                    rp = viol[0].split("replay=")[1].split()[0]
-                    what = json.load(open(rp)).get("what", "")[:200]
+                    rp = l.split("replay=")[1].split()[0]
+                    w = json.load(open(rp)).get("what", "")
+                    whats.append(("[no-input] " if l.endswith("no-failing-input-found") else "[INPUT] ") + w[-110:])
                 except Exception:
                     pass
+            what = " || ".join(whats)
             res[c] = {"verdict": verdict, "s": round(time.time() - t0), "what": what}
             print("%s %s: %s (%ds) %s" % (m["id"], c, verdict, time.time() - t0, what), flush=True)
         with open("/tmp/selfmut-results.jsonl", "a") as f:
